@@ -142,6 +142,24 @@ def render_event(rng, v, order=None, unknown=0, ws=True, canonical=False, overri
     return w() + b'{' + b','.join(parts) + b'}'
 
 
+def py_event_status(text):
+    """why the independent parser yields no event: 'nojson' (not a JSON text / not UTF-8), 'dup' (a member name occurs twice in
+    the top-level object: parsers legitimately differ, RFC 8259 s.4), 'notevent' (valid JSON, each member once, but some member is
+    missing, has the wrong type, or a hex member is not the right number of hex digits), 'ok'"""
+    class Obj(list):
+        pass
+    try:
+        top = json.loads(text.decode('utf8'), object_pairs_hook=Obj)
+    except Exception:
+        return 'nojson'
+    if not isinstance(top, Obj):
+        return 'notevent'
+    names = [k for k, _ in top]
+    if len(set(names)) != len(names):
+        return 'dup'
+    return 'ok' if py_event(text) is not None else 'notevent'
+
+
 def py_event(text):
     """the independent parser: Python's json on the text; returns the seven values or None"""
     try:
@@ -157,6 +175,9 @@ def py_event(text):
               and isinstance(o['content'], str) and isinstance(o['tags'], list)
               and all(isinstance(t, list) and all(isinstance(s, str) for s in t) for t in o['tags']))
         if not ok:
+            return None
+        if len(o['id']) != 64 or len(o['pubkey']) != 64 or len(o['sig']) != 128 or any(
+                ch not in '0123456789abcdefABCDEF' for ch in o['id'] + o['pubkey'] + o['sig']):
             return None
         return dict(id=bytes.fromhex(o['id']), pubkey=bytes.fromhex(o['pubkey']), sig=bytes.fromhex(o['sig']),
                     kind=o['kind'], created_at=o['created_at'],
@@ -189,6 +210,13 @@ def rand_filter_values(rng):
     letters = rng.sample(LETTERS, rng.choice([0, 0, 1, 1, 2, 3, 6]))
     for l in letters:
         f['#' + l] = [rand_string(rng, 8) for _ in range(rng.choice([0, 1, 2, 3]))]
+    # the same element twice - next to each other, or apart - is a list of that many elements (nothing says lists are sets)
+    for k in list(f.keys()):
+        if isinstance(f[k], list) and f[k] and rng.random() < 0.2:
+            i = rng.randrange(len(f[k]))
+            f[k].insert(rng.choice([i, i + 1, 0, len(f[k])]), f[k][i])
+            if rng.random() < 0.3:
+                f[k].insert(i, f[k][i])
     return f
 
 
@@ -239,6 +267,41 @@ def expected_filter(f):
 
 
 # ---------------------------------------------------------------- malformed stream
+
+def hex_aliases(rng, nbytes):
+    """strings of exactly 2*nbytes BYTES that are not hex but alias hex digits under sloppy decoding: UTF-8 characters whose bytes
+    become hex digits when bit 7 is masked off (U+00B0..B9 = C2 B0..B9 -> "B0".."B9", U+1C00.. = E1 B0 B0 -> "a00"), bytes with
+    bit 7 set, characters one off the digit/letter ranges, full-width digits; returns (bytes, valid_utf8)"""
+    n = 2 * nbytes
+    hexd = b'0123456789abcdefABCDEF'
+    k = rng.randrange(6)
+    if k == 0:      # all two-byte aliases
+        return b''.join(bytes([0xC2, 0xB0 + rng.randrange(10)]) for _ in range(nbytes)), True
+    if k == 1:      # hex digits with a few two-byte aliases at even offsets
+        out = bytearray(rng.choice(hexd) for _ in range(n))
+        for pos in rng.sample(range(0, n, 2), rng.choice([1, 1, 2, 5])):
+            out[pos:pos + 2] = bytes([0xC2, 0xB0 + rng.randrange(10)])
+        return bytes(out), True
+    if k == 2:      # two three-byte aliases (E1 B0 B0) + hex
+        out = bytearray(rng.choice(hexd) for _ in range(n))
+        pos = rng.randrange(0, n - 6)
+        out[pos:pos + 6] = bytes([0xE1, 0xB0 + rng.randrange(10), 0xB0 + rng.randrange(10)]) * 2
+        return bytes(out), True
+    if k == 3:      # raw bytes with bit 7 set (not UTF-8)
+        out = bytearray(rng.choice(hexd) for _ in range(n))
+        for pos in rng.sample(range(n), rng.choice([1, 2, 8, n])):
+            out[pos] |= 0x80
+        return bytes(out), False
+    if k == 4:      # neighbours of the digit / letter ranges
+        out = bytearray(rng.choice(hexd) for _ in range(n))
+        for pos in rng.sample(range(n), rng.choice([1, 2])):
+            out[pos] = rng.choice(b'/:@G`g')
+        return bytes(out), True
+    out = bytearray(rng.choice(hexd) for _ in range(n))   # a two-byte alias at an ODD offset
+    pos = rng.randrange(1, n - 2, 2)
+    out[pos:pos + 2] = bytes([0xC2, 0xB0 + rng.randrange(10)])
+    return bytes(out), True
+
 
 def mutations(rng, text, n):
     """single-byte substitutions / insertions / deletions, incl. bytes >= 0x80"""
